@@ -234,17 +234,17 @@ theorem spec_failed_stmt_changes_nothing (t : Int) (s : Sess) (st : Stmt) (b : B
 /-- The code-shaped step agrees with the specification on every statement except
 `CREATE TABLE AS`. -/
 theorem impl_eq_spec_unless_ctas (t : Int) (s : Sess) (st : Stmt)
-    (h : ∀ sn n ine w q, st ≠ .ctas sn n ine w q) : stepImpl t s st = Catalog.step t s st := by
-  cases st <;> first | rfl | (exact absurd rfl (h _ _ _ _ _))
+    (h : ∀ sn n ine w q refs, st ≠ .ctas sn n ine w q refs) : stepImpl t s st = Catalog.step t s st := by
+  cases st <;> first | rfl | (exact absurd rfl (h _ _ _ _ _ _))
 
 /-- ... and for `CREATE TABLE AS` the only difference is the table left behind by a run-time
 failure of the query: the catalog gains the empty table although the statement reports an error
 (the behaviour observed on the pinned commit; known finding). -/
 theorem impl_ctas_runtime_failure_leaves_table (t : Int) (s : Sess) (sn n : String) (ine : Bool) (w : Nat)
-    (q : Sem.Query) (sc : Schema) (e : Sem.Err)
+    (q : Sem.Query) (refs : List String) (sc : Schema) (e : Sem.Err)
     (hs : findSchema s sn = some sc) (hn : sc.find n = none)
-    (hq : Sem.evalQ (dbOf s) 200 [] q = .error e) (he : isRuntime e = true) :
-    stepImpl t s (.ctas sn n ine w q) = (addObj s sn n (.table w []), .err true) := by
+    (hq : evalOn s q refs = .error e) (he : isRuntime e = true) :
+    stepImpl t s (.ctas sn n ine w q refs) = (addObj s sn n (.table w []), .err true) := by
   simp [stepImpl, hs, hn, hq, he]
 
 def failingQuery : Sem.Query :=
@@ -254,14 +254,14 @@ def failingQuery : Sem.Query :=
 (witness replayed on the engine by the check's probe; known finding). The specification step on
 the same input leaves nothing behind. -/
 theorem impl_failed_ctas_changes_catalog :
-    ((stepImpl 4 Sess.init (.ctas "temp" "c" false 1 failingQuery)).2 matches .err true) = true ∧
-    (lookup (stepImpl 4 Sess.init (.ctas "temp" "c" false 1 failingQuery)).1 "temp" "c").isSome = true ∧
-    (lookup (Catalog.step 4 Sess.init (.ctas "temp" "c" false 1 failingQuery)).1 "temp" "c").isSome = false := by
+    ((stepImpl 4 Sess.init (.ctas "temp" "c" false 1 failingQuery [])).2 matches .err true) = true ∧
+    (lookup (stepImpl 4 Sess.init (.ctas "temp" "c" false 1 failingQuery [])).1 "temp" "c").isSome = true ∧
+    (lookup (Catalog.step 4 Sess.init (.ctas "temp" "c" false 1 failingQuery [])).1 "temp" "c").isSome = false := by
   decide
 
 /-- Statements that only read never change the state. -/
 theorem reads_are_pure (t : Int) (s : Sess) (q : Sem.Query) (v : String) :
-    (Catalog.step t s (.select q)).1 = s ∧ (Catalog.step t s (.showVar v)).1 = s ∧ (Catalog.step t s .listObjs).1 = s := by
+    (Catalog.step t s (.select q [])).1 = s ∧ (Catalog.step t s (.showVar v)).1 = s ∧ (Catalog.step t s .listObjs).1 = s := by
   refine ⟨?_, ?_, rfl⟩
   · simp only [Catalog.step]; split <;> rfl
   · simp only [Catalog.step]; split <;> rfl
@@ -315,9 +315,9 @@ theorem drop_existing_succeeds (t : Int) (s : Sess) (sn n : String) (o : Obj) (i
 
 /-- An INSERT evaluates its source on the state *before* the statement and appends exactly those
 rows to the target; the reported count is their number. -/
-theorem insert_reads_prestate (t : Int) (s : Sess) (sn n : String) (q : Sem.Query) (w : Nat) (old new : List Sem.Row)
-    (ht : lookup s sn n = some (.table w old)) (hq : Sem.evalQ (dbOf s) 200 [] q = .ok new) :
-    Catalog.step t s (.insert sn n q) = (setRows s sn n (old ++ new), .count new.length) := by
+theorem insert_reads_prestate (t : Int) (s : Sess) (sn n : String) (q : Sem.Query) (refs : List String) (w : Nat) (old new : List Sem.Row)
+    (ht : lookup s sn n = some (.table w old)) (hq : evalOn s q refs = .ok new) :
+    Catalog.step t s (.insert sn n q refs) = (setRows s sn n (old ++ new), .count new.length) := by
   simp [Catalog.step, ht, hq]
 
 /-- SET followed by RESET restores the default. -/
